@@ -737,7 +737,7 @@ class StoreRun:
         except ChildRaised as e:
             if e.is_command_line_error:
                 self.stats.inc("op_rejected")
-                self.log.add("rejected", e.message[:80])
+                self.log.add("rejected", e.message.replace(self.dir, "<RUN>")[:80])
                 return False, None
             if rare_options:
                 self.stats.inc("op_raised_with_rare_options")
@@ -752,7 +752,7 @@ class StoreRun:
             return False, None
         except CommandLineError as e:
             self.stats.inc("op_rejected")
-            self.log.add("rejected", str(e)[:80])
+            self.log.add("rejected", str(e).replace(self.dir, "<RUN>")[:80])
             return False, None
         except Exception as e:
             if rare_options:
